@@ -403,8 +403,8 @@ def generate(tier, seed):
         dist[tag] = dist.get(tag, 0) + 1
 
     exhaustive(add, thorough)
-    nrand = 60000 if thorough else 5000
-    nbig = 1500 if thorough else 150
+    nrand = 120000 if thorough else 5000
+    nbig = 3000 if thorough else 150
     for i in range(nrand):
         ty = rnd.choice(["sv", "sv", "sv", "stk", "ipv"])
         cap = rnd.choice([0, 1, 2, 3, 4, 4, 7, 7] if ty != "stk" else STK_CAPS)
